@@ -72,7 +72,9 @@ def unmarshal(data_in: bytes) -> typing.Tuple[int, int, FrameTypes]:
                                                    'Last byte error')
         return 8, channel_id, heartbeat.Heartbeat()
 
-    if not frame_size:
+    # Only a content body frame may have an empty payload
+    empty_payload_ok = frame_type == constants.FRAME_BODY
+    if frame_size is None or (frame_size == 0 and not empty_payload_ok):
         raise exceptions.UnmarshalingException('Unknown', 'No frame size')
 
     byte_count = constants.FRAME_HEADER_SIZE + frame_size + 1
